@@ -1,8 +1,87 @@
-/- Driver ops for C17 (none yet). -/
+/- Driver ops for C17: the RNG seeding model and the entry block of `xRFM.fit` (`Model/Rng.lean`, `Model/FitObj.lean`). -/
 import Xrfmv.Drv.Common
+import Xrfmv.Model.FitObj
+
+open Lean Xrfmv.Drv
 
 namespace Xrfmv.Drv.C17
+open Xrfmv.Gen.Rng (Gen)
 
-def ops : List (String × Handler) := []
+def genStr : Gen → String
+  | .torchGlobal => "torchGlobal" | .numpyGlobal => "numpyGlobal" | .pythonGlobal => "pythonGlobal"
+  | .torchCuda => "torchCuda" | .explicitGenerator => "explicitGenerator" | .entropy => "entropy"
+
+def getGen (s : String) : Except String Gen :=
+  match s with
+  | "torchGlobal" => pure .torchGlobal | "numpyGlobal" => pure .numpyGlobal | "pythonGlobal" => pure .pythonGlobal
+  | "torchCuda" => pure .torchCuda | "explicitGenerator" => pure .explicitGenerator | "entropy" => pure .entropy
+  | o => throw s!"bad-op: generator {o}"
+
+def optGS : Option Rng.GenState → Json
+  | some g => Json.mkObj [("seed", toJson g.seed), ("count", toJson g.count)]
+  | none => Json.null
+
+/-- `{"op":"rng","seed":s,"consume":[{"gen":"torchGlobal","k":1000},..],"sites":["torchGlobal",..]}`: what the given draw
+sites observe after `seedAll s`, with and without the prior consumption; which generators the constructor seeds; the
+generators of the inventoried sites. -/
+def opRng : Handler := fun j => do
+  let s ← j.getObjValAs? Nat "seed"
+  let cons ← j.getObjValAs? (Array Json) "consume"
+  let siteNames ← j.getObjValAs? (Array String) "sites"
+  let sites ← siteNames.toList.mapM getGen
+  let g0 : Rng.Rng := ⟨⟨0, 0⟩, ⟨0, 0⟩, ⟨0, 0⟩⟩
+  let mut g := g0
+  for c in cons do
+    let gen ← getGen (← c.getObjValAs? String "gen")
+    let k ← c.getObjValAs? Nat "k"
+    g := Rng.consume gen k g
+  let a := Rng.run sites (Rng.seedAll s g)
+  let b := Rng.run sites (Rng.seedAll s g0)
+  let st := Rng.seedAll s g
+  pure <| Json.mkObj [
+    ("withConsumption", toJson (a.map optGS)), ("without", toJson (b.map optGS)), ("equal", toJson (decide (a = b))),
+    ("seeds", toJson (Xrfmv.Gen.Rng.seeds.map genStr)),
+    ("siteGens", toJson (Rng.siteGens.eraseDups.map genStr)),
+    ("stateAfterSeed", Json.mkObj [("torchGlobal", optGS (some st.torch)), ("numpyGlobal", optGS (some st.numpy)),
+                                   ("pythonGlobal", optGS (some st.python))])]
+
+def optNat (j : Json) (k : String) : Except String (Option Nat) :=
+  match j.getObjVal? k with
+  | .ok Json.null => pure none
+  | .ok v => do pure (some (← (fromJson? v : Except String Nat)))
+  | .error _ => throw s!"bad-op: field {k} missing"
+
+def optNatJson' : Option Nat → Json
+  | some n => toJson n
+  | none => Json.null
+
+/-- `{"op":"entry","cfg":{useTuning,configuredTemp,metricArg},"obj":{trees,splitTemperature,nClasses,classConverter,
+extraRfmParams,tuningMetric,dataDim},"data":{isClass,nClasses,converter,extra,dim,metricClass,metricReg}}`:
+the object after the entry block of `fit` according to the regenerated facts. -/
+def opEntry : Handler := fun j => do
+  let c ← j.getObjVal? "cfg"
+  let cfg : FitObj.Cfg := { useTuning := ← c.getObjValAs? Bool "useTuning", configuredTemp := ← optNat c "configuredTemp",
+                            metricArg := ← optNat c "metricArg", rest := 0 }
+  let o ← j.getObjVal? "obj"
+  let obj : FitObj.Obj := { cfg := cfg, trees := ← optNat o "trees", splitTemperature := ← optNat o "splitTemperature",
+                            nClasses := ← optNat o "nClasses", classConverter := ← optNat o "classConverter",
+                            extraRfmParams := ← optNat o "extraRfmParams", tuningMetric := ← optNat o "tuningMetric",
+                            dataDim := ← optNat o "dataDim" }
+  let d ← j.getObjVal? "data"
+  let isClass ← d.getObjValAs? Bool "isClass"
+  let nC ← d.getObjValAs? Nat "nClasses"
+  let conv ← d.getObjValAs? Nat "converter"
+  let extra ← d.getObjValAs? Nat "extra"
+  let dim ← d.getObjValAs? Nat "dim"
+  let mC ← d.getObjValAs? Nat "metricClass"
+  let mR ← d.getObjValAs? Nat "metricReg"
+  let dv : FitObj.Derive := ⟨fun _ _ => nC, fun _ _ => conv, fun _ _ => extra, fun _ => dim, fun b => if b then mC else mR⟩
+  let e := FitObj.atEntry Xrfmv.Gen.FitObj.facts dv obj ⟨isClass, 0⟩
+  pure <| Json.mkObj [("trees", optNatJson' e.trees), ("splitTemperature", optNatJson' e.splitTemperature),
+    ("nClasses", optNatJson' e.nClasses), ("classConverter", optNatJson' e.classConverter),
+    ("extraRfmParams", optNatJson' e.extraRfmParams), ("tuningMetric", optNatJson' e.tuningMetric),
+    ("dataDim", optNatJson' e.dataDim), ("factsOk", toJson (FitObj.factsOk Xrfmv.Gen.FitObj.facts))]
+
+def ops : List (String × Handler) := [("rng", opRng), ("entry", opEntry)]
 
 end Xrfmv.Drv.C17
